@@ -45,6 +45,12 @@ def run(F, rep, tier):
     loop_do(F, rep)
     newline_flag(F, rep)
     bracket_modes(F, rep)
+    # `f' a, b` means f(a, b): the argument list goes on exactly as long as an expression starts
+    import c15
+    c15.optional_expressions(F, rep, "PRIME-ARGS")
+    # a trailing expression means `ret` of that expression - for the checker too
+    import c02
+    c02.trailing_value_is_the_return(F, rep, "IMPLICIT-RET")
     comments(F, rep)
     no_layout_flow(F, rep)
     paren_transparent(F, rep)
